@@ -14,7 +14,9 @@ import (
 	"fmt"
 	"os"
 	"path/filepath"
+	"runtime/debug"
 	"strconv"
+	"strings"
 
 	"verifharness/internal/sx"
 )
@@ -35,6 +37,7 @@ type Report struct {
 	Rule       string
 	Extra      map[string]interface{}
 	maxSamples int
+	last       sx.S // the last case recorded (context for a panic report)
 }
 
 // Open parses the common flags (-out, -tier, -seed; VERIF_SEED overrides the
@@ -92,6 +95,7 @@ func (r *Report) N(quick, thorough int) int {
 // for the histogram; nontrivial says whether the case counts as non-trivial
 // under the property's stated rule.
 func (r *Report) Case(c, observed sx.S, branch string, nontrivial bool) {
+	r.last = c
 	cs := sx.String(c)
 	r.cases.WriteString(cs)
 	r.cases.WriteByte('\t')
@@ -135,7 +139,56 @@ func (r *Report) Fail(key, what string, c sx.S, detail map[string]interface{}) {
 	r.oracle.Write(append(b, '\n'))
 }
 
+// panicInImplementation: is the function that panicked (the first frame below the run-time's own)
+// one of the library under test?
+func panicInImplementation(stack string) bool {
+	repo := os.Getenv("VERIF_REPO")
+	if repo == "" {
+		repo = "/repo"
+	}
+	lines := strings.Split(stack, "\n")
+	seenPanic := false
+	for i, l := range lines {
+		if strings.HasPrefix(l, "\t") || l == "" {
+			continue
+		}
+		if !seenPanic {
+			if strings.HasPrefix(l, "panic(") {
+				seenPanic = true
+			}
+			continue
+		}
+		if strings.HasPrefix(l, "runtime.") || strings.HasPrefix(l, "panic(") {
+			continue
+		}
+		// the frame's source file is on the next line (function names are unreliable: inlined
+		// closures of the library are named after their caller)
+		file := ""
+		if i+1 < len(lines) {
+			file = strings.TrimSpace(lines[i+1])
+		}
+		return strings.HasPrefix(l, "github.com/frobnitzem/go-p9p") || strings.HasPrefix(file, repo+"/")
+	}
+	return false
+}
+
+// Close finishes the output files.  Called as `defer r.Close()` from main it also turns a panic of
+// the implementation on the harness's main goroutine into a recorded failure with the panic text,
+// the stack and the last completed case (instead of a harness that merely died), and lets the
+// run end normally so that bin/check reports it with that replay.
 func (r *Report) Close() {
+	if p := recover(); p != nil {
+		stack := string(debug.Stack())
+		if !panicInImplementation(stack) {
+			panic(p) // a fault of the harness itself
+		}
+		if len(stack) > 6000 {
+			stack = stack[:6000]
+		}
+		r.Fail("implementation.panic", fmt.Sprintf("the implementation panicked on the case after the one shown (case %d of this run): %v", r.Evals+1, p), r.last,
+			map[string]interface{}{"stack": stack})
+		r.Extra["stopped_by_panic"] = fmt.Sprint(p)
+	}
 	r.cases.Flush()
 	r.casesF.Close()
 	r.oracle.Close()
